@@ -159,5 +159,10 @@ def run(ctx):
     dispatch_sound(ctx, 'C13', 'a request reaches the HTTP responder')
     table_never_shrinks(ctx, 'C13')
     no_abort_in(ctx, 'C13', r'proto::http::', 'answering HTTP')
+    # the request FSM is advanced by http_parse alone: a responder (or anything else) that rewinds or patches the parser
+    # state of a connection - e.g. a "keep-alive" reset that leaves the verb matcher's row behind - makes later complete
+    # requests on that connection unanswerable.  C01-R6 decides the writer sets; the HTTP ones are obligations here.
+    borrowed_rule(ctx, 'C13', 'RW', 'every field of the HTTP parser state is written by http_parse (and the constructor) only - the responder never rewinds or patches the FSM (C01-R6 writers:http::ProtocolState.*, same facts)',
+                  'C01', lambda r_, k_: r_ == 'C01-R6' and k_.startswith('writers:http::ProtocolState.'), floor=3)
 
 
